@@ -297,7 +297,9 @@ fn hist_case(line: &str) -> String {
 }
 
 /// A second, differently represented implementation of `Queryable` (members in a Vec, own number split).
-#[derive(Debug, Clone, PartialEq, Default)]
+/// Deliberately unlike `serde_json::Value` wherever the trait allows it: members in a `Vec` in document order, a separate
+/// unsigned variant, a lossy `Debug` (the engine must not depend on it), no override of the defaulted `reference` methods.
+#[derive(Clone, PartialEq, Default)]
 enum Alt {
     #[default]
     Null,
@@ -308,6 +310,9 @@ enum Alt {
     Str(String),
     Arr(Vec<Alt>),
     Obj(Vec<(String, Alt)>),
+}
+impl std::fmt::Debug for Alt {
+    fn fmt(&self, f: &mut std::fmt::Formatter<'_>) -> std::fmt::Result { write!(f, "Alt") }
 }
 impl From<&str> for Alt { fn from(s: &str) -> Self { Alt::Str(s.to_string()) } }
 impl From<String> for Alt { fn from(s: String) -> Self { Alt::Str(s) } }
